@@ -126,11 +126,14 @@ def trace_jobs(prop, tier):
     q = tier == "quick"
     pair_props = ("C05", "C06", "C07", "C08", "C19")
     prof = "pairs" if prop in pair_props else ("viewmut" if prop == "C04" else ("faults" if prop == "C20" else "full"))
+    extra = [TraceJob("u32" if q else t, "set", runs=3 if q else 8, events=300 if q else 1500, salt=50 + i)
+             for i, t in enumerate(["u32"] if q else ["u8", "u64", "Ipv6Net", "Ipv4Cidr"])] \
+        if prop in ("C01", "C02", "C03", "C04", "C09", "C10", "C15", "C16") else []
     if q:
         ts = ["u32", "Ipv6Net", "u8", "Ipv4Inet"]
-        return [TraceJob(t, prof, runs=4, events=300, salt=i) for i, t in enumerate(ts)]
+        return [TraceJob(t, prof, runs=4, events=300, salt=i) for i, t in enumerate(ts)] + extra
     return [TraceJob(t, prof, runs=10, events=1500, salt=i) for i, t in enumerate(ALL_TYPES)] + \
-           [TraceJob(t, "core", runs=6, events=3000, salt=100 + i) for i, t in enumerate(["u32", "u128", "Ipv4Net"])]
+           [TraceJob(t, "core", runs=6, events=3000, salt=100 + i) for i, t in enumerate(["u32", "u128", "Ipv4Net"])] + extra
 
 
 def targets(types, colls=("map",), ctxs=("plain",)):
@@ -235,7 +238,10 @@ def plan(prop, tier):
                     TableJob("c19_single", MUT + ["CloneCheck", "Collect", "Serde"], ["CloneCheck", "Collect", "Serde"],
                              targets=both)]
         split = [TableJob(prop.lower() + "_split", core + ["SplitOp"], ["SplitOp"], targets=targets(types))] if prop in ("C05", "C06", "C07") else []
-        return split + [PairJob(prop.lower() + "_cc", IR, IR, ops, 3, 3, targets=pt),
+        # the same operations at the boundary lengths width-2 .. width
+        bpt = [(t, "map-map", "stretch:2") for t in (["u8", "u128", "Ipv4Net"] if q else ALL_TYPES)]
+        bnd_pairs = [PairJob(prop.lower() + "_bnd", IR, IR, ops, 2, 2, base="<<1>>", nodes_a=4, nodes_b=4, targets=bpt)]
+        return split + bnd_pairs + [PairJob(prop.lower() + "_cc", IR, IR, ops, 3, 3, targets=pt),
                 PairJob(prop.lower() + "_lc", IRK, IR, ops, n, 2, nodes_a=4 if q else 6, targets=pt),
                 PairJob(prop.lower() + "_cl", IR, IRK, ops, 2, n, nodes_b=4 if q else 6, targets=pt)]
     if prop == "C18":
